@@ -47,6 +47,7 @@ type recFSM struct {
 	mu       sync.Mutex
 	node     uint64
 	inc      int
+	dir      string // storage directory of this incarnation (for the fsm.persist hook)
 	ids      []uint64 // current content: restored base ++ updates since
 	restores int
 	badCalls []string
@@ -93,14 +94,26 @@ func (f *recFSM) Read(cmd interface{}) interface{} {
 	return fsmReadResult{Len: len(f.ids), Hash: hashIDs(f.ids)}
 }
 
-type recState struct{ ids []uint64 }
+type recState struct {
+	ids []uint64
+	dir string
+}
 
+// Persist writes the state in two halves; between them lies the harness-internal
+// hook point "fsm.persist" (hold / crash while a snapshot file is half written).
 func (s recState) Persist(w io.Writer) error {
 	b := make([]byte, 8*len(s.ids))
 	for i, id := range s.ids {
 		binary.LittleEndian.PutUint64(b[8*i:], id)
 	}
-	_, err := w.Write(b)
+	half := len(b) / 2
+	if _, err := w.Write(b[:half]); err != nil {
+		return err
+	}
+	if c := curCluster.Load(); c != nil && s.dir != "" && !c.blackbox {
+		c.onHook("fsm.persist", s.dir)
+	}
+	_, err := w.Write(b[half:])
 	return err
 }
 func (s recState) Release() {}
@@ -119,7 +132,7 @@ func (f *recFSM) Snapshot() (FSMState, error) {
 	f.mu.Lock()
 	defer f.mu.Unlock()
 	f.calls++
-	return recState{append([]uint64(nil), f.ids...)}, nil
+	return recState{ids: append([]uint64(nil), f.ids...), dir: f.dir}, nil
 }
 
 func (f *recFSM) Restore(r io.Reader) error {
@@ -545,7 +558,7 @@ func (c *cluster) start(id uint64) error {
 	if err := copyDir(n.image, dir); err != nil {
 		panic(err)
 	}
-	fsm := &recFSM{node: id, inc: n.inc + 1}
+	fsm := &recFSM{node: id, inc: n.inc + 1, dir: dir}
 	opt := c.opt
 	opt.ShutdownOnRemove = c.shutdownOnRemove
 	r, err := New(opt, fsm, dir)
